@@ -151,7 +151,7 @@ def generate(tier, seed, ctx):
             out.append(emit_record(root, sheap, roots[0], note, o))
     # the same live Cell objects emitted under several roots, inner cells first: every emission must conform on its own
     # (what a cell looked like inside an earlier bag must not leak into a later one)
-    from pytoniq_core.boc import Builder
+    from pytoniq_core.boc import Builder, Cell
 
     def mk(bits, refs):
         b = Builder().store_uint(bits, 9)
@@ -166,7 +166,18 @@ def generate(tier, seed, ctx):
         cells = [y, z, q, x, p]
         for _ in range(rng.randint(0, 3)):
             cells.append(mk(rng.getrandbits(9), rng.sample(cells, rng.randint(1, 3))))
-        roots_ = [x, p, mk(1, [p, x]), mk(2, [q, x]), mk(3, [x, p]), mk(5, [q, p, x])]
+        # equal cells of different Python classes (the parser builds instances of the class it was called on) are one cell in a bag;
+        # and a caller that used the dictionary returned by order() to collect another root has not changed what x serialises to
+        class SubCell(Cell):
+            pass
+        try:
+            y2 = SubCell.one_from_boc(y.to_boc())
+            x2 = SubCell.one_from_boc(x.to_boc())
+        except Exception:
+            y2, x2 = y, x
+        acc = x.order()
+        p.order(acc)
+        roots_ = [x, p, mk(1, [p, x]), mk(2, [q, x]), mk(3, [x, p]), mk(5, [q, p, x]), mk(4, [y, y2]), mk(8, [x2, x, y2])]
         roots_ += [mk(6 + j, rng.sample(cells, rng.randint(2, 4))) for j in range(3)]
         for root in roots_:
             sheap, rts, _ = ck.project([root])
